@@ -196,6 +196,16 @@ def main():
     [t.start() for t in ths]
     [t.join() for t in ths]
     shutil.rmtree(root, ignore_errors=True)
+    try:
+        triage = json.load(open(os.path.join(HERE, "mutsweep", "triage.json")))["entries"]
+    except OSError:
+        triage = []
+    for r in results:
+        if r["status"] == "SURVIVED":
+            for t in triage:
+                if t["file"] == r["file"] and t["old"] == r["old"] and t["op"] == r["op"]:
+                    r["status"] = "survived_" + t["class"]
+                    r["triage"] = t["reason"]
     results.sort(key=lambda r: (r["file"], r["line"], r["op"]))
     summary = {}
     for r in results:
@@ -203,9 +213,12 @@ def main():
     os.makedirs(os.path.dirname(args.out), exist_ok=True)
     json.dump(dict(repo_head=subprocess.run(["git", "-C", REPO, "rev-parse", "HEAD"], capture_output=True, text=True).stdout.strip(), summary=summary, results=results), open(args.out, "w"), indent=1)
     print(json.dumps(summary))
+    bad = 0
     for r in results:
         if r["status"] in ("SURVIVED", "harness_error", "timeout"):
+            bad += 1
             print(f"{r['status']} {r['file']}:{r['line']} {r['op']}: {r['old']}  =>  {r['new']}")
+    sys.exit(1 if bad else 0)
 
 
 if __name__ == "__main__":
